@@ -30,7 +30,9 @@ type opDesc struct {
 	Data   []int   `json:"data"`   // ExtInsert: GenericExtension.Data
 	T      int     `json:"t"`      // ExtRemove: extension type
 	Protos [][]int `json:"protos"` // ExtALPN
-	What   string  `json:"what"`   // Break: pad2 | extfail | badbinder | emptypsk | shortrandom
+	What   string  `json:"what"`   // Break: pad2 | extfail | badbinder | emptypsk | shortrandom; InPlace: alpn | generic | groups | versions | sid
+	B      int     `json:"b"`      // InPlace: the new value of the edited element ...
+	B2     int     `json:"b2"`     // ... or this one if it already has that value
 }
 
 type scn struct {
@@ -69,6 +71,7 @@ func customSpec() *tls.ClientHelloSpec {
 			&tls.PSKKeyExchangeModesExtension{Modes: []uint8{tls.PskModeDHE}},
 			&tls.SupportedVersionsExtension{Versions: []uint16{tls.GREASE_PLACEHOLDER, tls.VersionTLS13, tls.VersionTLS12}},
 			&tls.UtlsGREASEExtension{},
+			&tls.GenericExtension{Id: 65300, Data: []byte{1, 2, 3, 4}},
 			&tls.UtlsPaddingExtension{GetPaddingLen: tls.BoringPaddingStyle},
 		},
 	}
@@ -218,6 +221,50 @@ func applyOp(u *tls.UConn, o *opDesc, specFn func() (*tls.ClientHelloSpec, error
 			}
 		}
 		obs["found"] = n
+	case "InPlace":
+		// same-length edits in place: the extension object stays in the list, one element of one of its fields changes
+		repl := func(x int) int {
+			if x == o.B {
+				return o.B2
+			}
+			return o.B
+		}
+		obs["found"], obs["before"], obs["after"] = 0, []int{}, []int{}
+		for _, e := range u.Extensions {
+			switch x := e.(type) {
+			case *tls.ALPNExtension:
+				if o.What == "alpn" && len(x.AlpnProtocols) > 0 && len(x.AlpnProtocols[0]) > 0 {
+					obs["before"] = protoInts(x.AlpnProtocols)
+					p := []byte(x.AlpnProtocols[0])
+					p[len(p)-1] = byte(repl(int(p[len(p)-1])))
+					x.AlpnProtocols[0] = string(p)
+					obs["after"], obs["found"] = protoInts(x.AlpnProtocols), 1
+				}
+			case *tls.GenericExtension:
+				if o.What == "generic" && int(x.Id) == o.ID && len(x.Data) > 0 {
+					obs["before"] = hlib.Ints(x.Data)
+					x.Data[0] = byte(repl(int(x.Data[0])))
+					obs["after"], obs["found"] = hlib.Ints(x.Data), 1
+				}
+			case *tls.SupportedCurvesExtension:
+				if o.What == "groups" && len(x.Curves) > 0 {
+					obs["before"] = hlib.U16s(x.Curves)
+					x.Curves[len(x.Curves)-1] = tls.CurveID(repl(int(x.Curves[len(x.Curves)-1])))
+					obs["after"], obs["found"] = hlib.U16s(x.Curves), 1
+				}
+			case *tls.SupportedVersionsExtension:
+				if o.What == "versions" && len(x.Versions) > 0 {
+					obs["before"] = hlib.U16s(x.Versions)
+					x.Versions[len(x.Versions)-1] = uint16(repl(int(x.Versions[len(x.Versions)-1])))
+					obs["after"], obs["found"] = hlib.U16s(x.Versions), 1
+				}
+			}
+		}
+		if h := u.HandshakeState.Hello; o.What == "sid" && h != nil && len(h.SessionId) > 0 {
+			obs["before"] = hlib.Ints(h.SessionId)
+			h.SessionId[0] = byte(repl(int(h.SessionId[0])))
+			obs["after"], obs["found"] = hlib.Ints(h.SessionId), 1
+		}
 	case "Break":
 		// edits of Hello / Extensions that leave something the marshaller has to refuse
 		obs["nbefore"] = len(u.Extensions)
@@ -302,6 +349,14 @@ func applyOp(u *tls.UConn, o *opDesc, specFn func() (*tls.ClientHelloSpec, error
 		return obs, fmt.Errorf("harness: unknown op %q", o.Op)
 	}
 	return obs, err
+}
+
+func protoInts(ps []string) [][]int {
+	r := make([][]int, len(ps))
+	for i, p := range ps {
+		r[i] = hlib.Ints([]byte(p))
+	}
+	return r
 }
 
 func hexOf(b []byte) string { return hex.EncodeToString(b) }
